@@ -92,6 +92,7 @@ func vObserveB(n string, b []byte) {
 func vKnown(id string, c bool) bool { return c }
 func vGo(name string, f func())     { go f() }
 func vSleep(ms int) { time.Sleep(time.Duration(ms) * time.Millisecond) }
+func vSettle(ms int) { time.Sleep(time.Duration(ms) * time.Millisecond) }
 func vTempDir() string {
 	d, err := os.MkdirTemp("", "zzverif")
 	if err != nil {
@@ -496,6 +497,19 @@ func cmdCheck(prop, tier string) int {
 			o = runNative(np, p, 60*time.Second)
 			agree = o.Done && o.Assert == "" && o.Panic == "" && len(o.Exhaust) == 0
 			why = ""
+			if !agree && o.Assert != "" {
+				// the native scheduler took another interleaving and ran into an assertion that the symbolic
+				// exploration of the same root reports as a finding anyway (triaged below on its own)
+				for _, fd := range findings {
+					if fd.Kind == "assert" && fd.ID == o.Assert && fd.Root == s.Root && fmt.Sprint(fd.Args) == fmt.Sprint(s.Args) {
+						agree = true
+						s.Weak = true
+					}
+				}
+				if agree {
+					break
+				}
+			}
 			if !agree {
 				why = fmt.Sprintf("native run did not complete like the symbolic path (done=%v assert=%q panic=%q assume=%v exhausted=%v hang=%v)", o.Done, o.Assert, o.Panic, o.Assume, o.Exhaust, o.Hang)
 			} else if s.Weak {
